@@ -709,6 +709,100 @@ int main(int argc, char** argv) {
       }
     });
   }
+  if (mode == "hammer") {
+    // Hint hammer: k threads share ONE zone object; each thread stays inside its own stretch of the transition table
+    // (so the per-direction hints of the threads differ) and repeats lookup(t) / lookup(cs) in a tight loop, comparing
+    // every answer with the one computed single-threaded beforehand on a second copy of the same bytes. No strings,
+    // no locks, nothing shared but the zone: a hint that is re-read, torn or used unvalidated shows as a wrong answer.
+    long rounds = a.getl("rounds", 12);
+    long iters = a.getl("iters", 200000);
+    return sup::supervise(rounds, opt, [&](long c, sup::Ctx& ctx) {
+      // the zone with the most recorded transitions among the first ones, rotated per round
+      std::vector<size_t> order(g_z.size());
+      for (size_t i = 0; i < order.size(); ++i) order[i] = i;
+      std::stable_sort(order.begin(), order.end(), [&](size_t x, size_t y) { return g_z[x].inst.size() > g_z[y].inst.size(); });
+      const ZBytes& zb = g_z[order[static_cast<size_t>(c) % std::min<size_t>(order.size(), 6)]];
+      int k = (c % 3 == 0) ? 2 : (c % 3 == 1 ? 4 : 8);
+      ctx.set_case("class=hammer op=shared-zone-hints round=%ld k=%d zone=%s tsan=%d", c, k, zb.name.c_str(), tsan ? 1 : 0);
+      std::string n1 = "V/C/hammer/" + std::to_string(c) + "/shared", n2 = "V/C/hammer/" + std::to_string(c) + "/reference";
+      zsrc::put(n1, zb.bytes);
+      zsrc::put(n2, zb.bytes);
+      cctz::time_zone shared, refz;
+      if (!cctz::load_time_zone(n1, &shared) || !cctz::load_time_zone(n2, &refz)) {
+        ctx.note("hammer: zone did not load");
+        ctx.stat("harness_errors");
+        return;
+      }
+      orc::Zone Z;
+      Z.init(zb.bytes);
+      std::vector<int64_t> T(Z.f.times.begin(), Z.f.times.end());
+      if (T.size() < 4) {
+        ctx.stat("C13.hammer_rounds_skipped_few_transitions");
+        return;
+      }
+      struct Probe {
+        int64_t t;
+        cctz::time_zone::absolute_lookup al;
+        cctz::civil_second cs;
+        cctz::time_zone::civil_lookup cl;
+      };
+      std::vector<std::vector<Probe>> tab(static_cast<size_t>(k));
+      sup::Rng rng(seed, static_cast<uint64_t>(c) + 4242);
+      for (int ti = 0; ti < k; ++ti) {
+        // thread ti owns the stretch of the table around transition index (ti+1) * size / (k+1)
+        size_t idx = (static_cast<size_t>(ti) + 1) * T.size() / (static_cast<size_t>(k) + 1);
+        for (int j = 0; j < 24; ++j) {
+          size_t i = std::min(T.size() - 1, idx + static_cast<size_t>(j % 3));
+          int64_t lo = T[i], hi = (i + 1 < T.size()) ? T[i + 1] : T[i] + 86400 * 200;
+          if (hi - lo < 4) continue;
+          int64_t t = (j < 6) ? lo + j : (j < 12 ? hi - 1 - (j - 6) : lo + rng.range(0, hi - lo - 1));
+          Probe p;
+          p.t = t;
+          p.al = refz.lookup(mk(t));
+          p.cs = p.al.cs;
+          p.cl = refz.lookup(p.cs);
+          tab[static_cast<size_t>(ti)].push_back(p);
+        }
+      }
+      std::vector<std::string> bad(static_cast<size_t>(k));
+      std::vector<long> done(static_cast<size_t>(k), 0);
+      Barrier bar(k);
+      std::vector<std::thread> th;
+      for (int ti = 0; ti < k; ++ti) {
+        th.emplace_back([&, ti]() {
+          const auto& mine = tab[static_cast<size_t>(ti)];
+          if (mine.empty()) return;
+          bar.wait();
+          for (long it = 0; it < iters; ++it) {
+            const Probe& p = mine[static_cast<size_t>(it) % mine.size()];
+            auto al = shared.lookup(mk(p.t));
+            auto cl = shared.lookup(p.cs);
+            ++done[static_cast<size_t>(ti)];
+            bool ok = al.offset == p.al.offset && al.is_dst == p.al.is_dst && al.cs == p.al.cs && cl.kind == p.cl.kind && cl.pre == p.cl.pre &&
+                      cl.trans == p.cl.trans && cl.post == p.cl.post;
+            if (!ok && bad[static_cast<size_t>(ti)].empty()) {
+              std::ostringstream o;
+              o << "thread " << ti << " iteration " << it << " t=" << p.t << " cs=" << cs_str(p.cs) << ": lookup(t) offset " << al.offset << " (single-threaded "
+                << p.al.offset << "), lookup(cs) kind " << cl.kind << " pre " << un(cl.pre) << " trans " << un(cl.trans) << " post " << un(cl.post)
+                << " (single-threaded kind " << p.cl.kind << " pre " << un(p.cl.pre) << " trans " << un(p.cl.trans) << " post " << un(p.cl.post) << ")";
+              bad[static_cast<size_t>(ti)] = o.str();
+            }
+          }
+        });
+      }
+      for (auto& t : th) t.join();
+      long total = 0;
+      for (long d : done) total += d;
+      ctx.stat("C13.evaluations", static_cast<uint64_t>(total) * 2);
+      ctx.stat("C13.hammer_lookups", static_cast<uint64_t>(total) * 2);
+      ctx.stat("C13.hammer_rounds");
+      ctx.stat("C13.distinct_nontrivial");
+      if (tsan) ctx.stat("C13.rounds_under_tsan");
+      for (auto& b : bad)
+        if (!b.empty()) ctx.viol("C13", "result-differs-from-single-threaded:hint-hammer", "round=" + std::to_string(c) + " k=" + std::to_string(k) + " zone=" + zb.name + " " + b);
+      if (c == 0) ctx.sample("C13", "hint hammer round 0: " + std::to_string(k) + " threads x " + std::to_string(iters) + " lookup(t)+lookup(cs) on one shared " + zb.name + ", each thread in its own stretch of the table");
+    });
+  }
   if (mode == "overtake") {
     // A waiter that has seen its cache miss is held just before the load lock while another thread performs N
     // first-time loads, the last of them for the waiter's own name; then the waiter goes on. Whatever N is, the
